@@ -211,7 +211,7 @@ pub fn c10_conv_number_emptystr() {
     std::mem::forget(v);
 }
 
-//@ harness: c10_conv_number_emptyarr tier=thorough timeout=1500 kind=main mem=16 optional=1
+//@ harness: c10_conv_number_emptyarr tier=thorough timeout=900 kind=main mem=16 optional=1
 //@ encodes: js_op::to_number, js_op::to_string, js_op::str_to_number
 //@ bound: operand []: Number()-style value 0 (real to_string / str_to_number, no stub)
 #[cfg_attr(kani, kani::proof)]
@@ -242,7 +242,7 @@ fn conv_container(k: u8) {
     std::mem::forget(v);
 }
 
-//@ harness: c10_conv_number_arrbool tier=thorough timeout=1800 kind=main mem=20 optional=1
+//@ harness: c10_conv_number_arrbool tier=thorough timeout=900 kind=main mem=20 optional=1
 //@ encodes: js_op::to_number, js_op::to_string (array join), js_op::str_to_number
 //@ bound: operand [Bool(any)]: Number()-style conversion goes through the text "true"/"false" => non-numeric
 #[cfg_attr(kani, kani::proof)]
@@ -253,7 +253,7 @@ pub fn c10_conv_number_arrbool() {
     conv_container(0);
 }
 
-//@ harness: c10_conv_number_arrnull tier=thorough timeout=1800 kind=main mem=20 optional=1
+//@ harness: c10_conv_number_arrnull tier=thorough timeout=900 kind=main mem=20 optional=1
 //@ encodes: js_op::to_number, js_op::to_string (array join), js_op::str_to_number
 //@ bound: operand [null]: text "" => 0
 #[cfg_attr(kani, kani::proof)]
@@ -275,7 +275,7 @@ pub fn c10_conv_number_obj() {
     conv_container(2);
 }
 
-//@ harness: c10_conv_number_object tier=thorough timeout=1200 kind=main mem=12 optional=1
+//@ harness: c10_conv_number_object tier=thorough timeout=900 kind=main mem=12 optional=1
 //@ encodes: js_op::to_number, js_op::to_string, js_op::str_to_number, core dec2flt on the constant "[object Object]"
 //@ bound: operand {}: non-numeric (None)
 #[cfg_attr(kani, kani::proof)]
